@@ -62,6 +62,26 @@ func cmdBuiltins(args []string) {
 			"sepFuncNil": b2i(r.SeparatorFunc == nil), "size": int(r.Size())})
 	}
 	em.Emit(map[string]interface{}{"op": "globals", "maxTrials": spg.MaxTrials, "maxFailRate": Dyadic64Of(spg.MaxFailRate)})
+	// the default retry budget, observed: a recipe whose first attempts all miss the requirement
+	{
+		r := spg.CharRecipe{Length: 2, AllowChars: "ab", RequireSets: []string{"b"}}
+		for _, okAt := range []int{0, 200, 199, 201} { // 0: every attempt fails; k: attempt k is the first that satisfies the requirement
+			e := NewEnum(*seed)
+			e.RejectProb = 0
+			e.Policy = func(j int, n uint32) uint32 {
+				if okAt > 0 && j/2 == okAt-1 {
+					return n - 1
+				}
+				return 0
+			}
+			var res GenRes
+			o := e.Run(nil, func() { p, err := r.Generate(); res = ResOf(p, err, nil) })
+			if o.Panic != nil {
+				res = ResOf(nil, nil, o.Panic)
+			}
+			em.Emit(map[string]interface{}{"op": "budget", "okAt": okAt, "draws": len(o.Draws), "len": 2, "kind": res.Kind, "err": res.Err})
+		}
+	}
 	// separator presets: the complete choice tree of each function
 	names := []string{"SFNone", "SFDigits1", "SFDigits2", "SFDigitsNoAmbiguous1", "SFDigitsNoAmbiguous2", "SFSymbols", "SFDigitsSymbols"}
 	for _, name := range names {
